@@ -23,6 +23,7 @@ type BoCase struct {
 	Mult10  int      `json:"mult10"`  // multiplier * 10, 0 = default (1.8)
 	Max     uint32   `json:"max"`     // ms, 0 = default (20000)
 	Const   uint32   `json:"const"`   // ms, 0 = default (5000)
+	Decoy   int      `json:"decoy"`   // > 0: a second container built from the same Option value fails this many times meanwhile
 	Steps   []BoStep `json:"steps"`
 }
 
@@ -42,6 +43,9 @@ func genBo(t *rapid.T) BoCase {
 		return BoStep{RunMin: rapid.SampledFrom([]int{0, 0, 1, 16, 40}).Draw(t, "run"), OK: rapid.IntRange(0, 4).Draw(t, "ok") == 0}
 	})
 	c.Steps = rapid.SliceOfN(step, 1, ev.Pick(6, 12)).Draw(t, "steps")
+	if rapid.IntRange(0, 2).Draw(t, "hasdecoy") == 0 {
+		c.Decoy = rapid.IntRange(1, 8).Draw(t, "decoy")
+	}
 	return c
 }
 
@@ -52,6 +56,23 @@ func runBo(t *testing.T, cs BoCase) *ev.Verdict {
 	_, berr := sched.Run(t, nil, nil, func(c *sched.Ctl) {
 		conf := &backoff.Backoff{}
 		lo, hi := time.Duration(0), time.Duration(0)
+		// reference schedule of the configured back-off (randomisation factor 0): the k-th
+		// consecutive failure since the last success is retried after next()
+		var cur, ini0, max0 time.Duration
+		mult := 1.0
+		resetRef := func() { cur = ini0 }
+		nextRef := func() time.Duration {
+			r := cur
+			if !cs.Expo {
+				return r
+			}
+			if float64(cur) >= float64(max0)/mult {
+				cur = max0
+			} else {
+				cur = time.Duration(float64(cur) * mult)
+			}
+			return r
+		}
 		if cs.Expo {
 			conf.BackoffKind = backoff.BackoffKind_BackoffKind_EXPONENTIAL
 			conf.Exponential = &backoff.Exponential{InitialInterval: cs.Initial, Multiplier: float32(cs.Mult10) / 10, MaxInterval: cs.Max}
@@ -63,6 +84,11 @@ func runBo(t *testing.T, cs BoCase) *ev.Verdict {
 				mx = 20000
 			}
 			lo, hi = time.Duration(ini)*time.Millisecond, time.Duration(mx)*time.Millisecond
+			ini0, max0 = lo, hi
+			mult = float64(float32(cs.Mult10) / 10)
+			if cs.Mult10 == 0 {
+				mult = float64(float32(1.8))
+			}
 			if hi < lo {
 				hi = lo
 			}
@@ -75,13 +101,37 @@ func runBo(t *testing.T, cs BoCase) *ev.Verdict {
 			}
 			lo = time.Duration(iv) * time.Millisecond
 			hi = lo
+			ini0, max0 = lo, lo
 		}
 		var mu sync.Mutex
 		entered := 0
 		var release []chan bool
-		rc := routine.NewRoutineContainer(routine.WithRetry(conf))
+		resetRef()
+		opt := routine.WithRetry(conf)
+		rc := routine.NewRoutineContainer(opt)
 		ctx, cancel := context.WithCancel(context.Background())
 		defer cancel()
+		decoyRuns := 0
+		if cs.Decoy > 0 {
+			// the same Option value configures a second container whose routine fails a few
+			// times: its retries must not influence the first container's schedule
+			decoy := routine.NewRoutineContainer(opt)
+			decoy.SetRoutine(func(ctx context.Context) error {
+				mu.Lock()
+				decoyRuns++
+				n := decoyRuns
+				mu.Unlock()
+				if n > cs.Decoy {
+					<-ctx.Done()
+				}
+				if ctx.Err() != nil {
+					return ctx.Err()
+				}
+				return fmt.Errorf("decoy-fail")
+			})
+			decoy.SetContext(ctx, false)
+			defer decoy.ClearContext()
+		}
 		rc.SetRoutine(func(ctx context.Context) error {
 			mu.Lock()
 			entered++
@@ -142,22 +192,24 @@ func runBo(t *testing.T, cs BoCase) *ev.Verdict {
 					return
 				}
 				// after a success the back-off starts over: the next interval is the initial one again
+				resetRef()
 				continue
 			}
-			// failure: no retry before the smallest possible interval, a retry by the largest
-			if lo > time.Millisecond {
-				time.Sleep(lo - time.Millisecond)
+			// failure: no retry before the configured interval has passed, a retry once it has
+			iv := nextRef()
+			if iv > time.Millisecond {
+				time.Sleep(iv - time.Millisecond)
 				c.Wait()
 				if count() != want {
-					v.Add("C14", "routine:unexpected-run", "step %d: the routine was retried %v after its failure, before the back-off interval (>= %v) had passed", i, lo-time.Millisecond, lo)
+					v.Add("C14", "routine:unexpected-run", "step %d: the routine was retried %v after its failure, before its back-off interval %v had passed (decoy container: %v)", i, iv-time.Millisecond, iv, cs.Decoy)
 					return
 				}
 			}
-			time.Sleep(hi - lo + 2*time.Millisecond)
+			time.Sleep(2 * time.Millisecond)
 			c.Wait()
 			want++
 			if count() != want {
-				v.Add("C14", "routine:retry-lost", "step %d: the routine returned an error (after running %d min) and was not run again within the largest back-off interval %v (retry configured: %s, no elapsed-time limit); entered %d times, want %d", i, st.RunMin, hi, map[bool]string{true: "exponential", false: "constant"}[cs.Expo], count(), want)
+				v.Add("C14", "routine:retry-lost", "step %d: the routine returned an error (after running %d min) and was not run again when its back-off interval %v had passed (retry configured: %s, no elapsed-time limit; decoy container sharing the option: %v); entered %d times, want %d", i, st.RunMin, iv, map[bool]string{true: "exponential", false: "constant"}[cs.Expo], cs.Decoy, count(), want)
 				return
 			}
 		}
@@ -166,6 +218,9 @@ func runBo(t *testing.T, cs BoCase) *ev.Verdict {
 		}
 		if sawLong {
 			v.Class("instance-ran-longer-than-15-minutes-before-failing")
+		}
+		if cs.Decoy > 0 {
+			v.Class("second-container-from-the-same-option")
 		}
 		rc.ClearContext()
 		c.Wait()
@@ -179,7 +234,7 @@ func runBo(t *testing.T, cs BoCase) *ev.Verdict {
 func TestC14Backoff(t *testing.T) {
 	ev.Drive(t, ev.Runner[BoCase]{
 		Prop: "C14", ReplayRuns: 3,
-		Rule: "RoutineContainer with the library's own back-off configuration (routine.WithRetry: exponential {initial, multiplier, max; defaults via 0} or constant) in virtual time; each step lets the running instance run 0/1/16/40 virtual minutes, then makes it fail or succeed; oracle: a failure is retried no earlier than the smallest and no later than the largest configured interval, a success only by RestartRoutine; non-trivial iff an instance ran >= 16 minutes before failing or a success reset the back-off; distinct by case",
+		Rule: "RoutineContainer with the library's own back-off configuration (routine.WithRetry: exponential {initial, multiplier, max; defaults via 0} or constant) in virtual time; each step lets the running instance run 0/1/16/40 virtual minutes, then makes it fail or succeed; optionally a second, always failing container built from the same Option value; oracle: the k-th consecutive failure since the last success is retried exactly when the configured interval (initial*multiplier^(k-1) capped at max, or the constant) has passed, a success only by RestartRoutine; non-trivial iff an instance ran >= 16 minutes before failing or a success reset the back-off; distinct by case",
 		Gen:  genBo,
 		Run:  runBo,
 	})
